@@ -34,6 +34,11 @@ def run_rule(prog, run, rid, scope_text, consequence, prefixes, floor, seed=None
     r.instances += eng.reads
     seen = set()
     for kind, fi, node, what, missing in eng.problems:
+        if kind == "attr" and isinstance(node.value, ast.Name):
+            from . import pathfeas
+            missing = [c for c in missing if pathfeas.evaluated_for(prog, fi, node, node.value.id, c) is not False]
+            if not missing:
+                continue
         if kind == "attr":
             key = "%s:%s:no-attribute(%s on %s)" % (fi.module.name, fi.qualname, ast.unparse(node), "|".join(missing))
             msg = "`%s` is typed as a node that may be %s, which has no attribute `%s`: AttributeError at run time" % (
